@@ -7,7 +7,8 @@ cp $SRC/demo.rs $W/tests/seeded_$ID.rs
 cd $W
 run_demo() { unshare -rn sh -c "ip link set lo up; cargo test --offline --features verif --test seeded_$ID 2>&1" | grep -E "^test result|panicked|error(\[|:)" | head -5; }
 run_demo > /tmp/cs/$ID$L.without.txt
-git apply $SRC/patch.diff || { echo "patch does not apply"; cd /; git -C /repo worktree remove --force $W; exit 2; }
+git apply $SRC/patch.diff 2>/dev/null || git apply -3 $SRC/patch.diff || { echo "patch does not apply"; cd /; git -C /repo worktree remove --force $W; exit 2; }
+git diff HEAD -- src > /tmp/cs/$ID$L.patch; git reset -q
 run_demo > /tmp/cs/$ID$L.with.txt
 rm -f tests/seeded_$ID.rs
 BASE_REPO=$W unshare -rn sh -c "ip link set lo up; BASE_REPO=$W /verif/baseline_off.sh" | tail -4 > /tmp/cs/$ID$L.baseline.txt
